@@ -635,7 +635,6 @@ func rootsAreContainers(docs []abs.Value) bool {
 	return true
 }
 
-
 func docAt(docs []abs.Value, path []int) abs.Value {
 	v := docs[path[0]-1]
 	for _, c := range path[1:] {
